@@ -163,7 +163,12 @@ func socks4Valid(r Rand, _ bool) []byte {
 	out := cat([]byte{4, cmd}, be16(port))
 	if coin(r, "socks4.4a") {
 		// SOCKS4a: 0.0.0.x with x != 0, host name behind the user id
-		out = cat(out, []byte{0, 0, 0, byte(between(r, 1, 255, "socks4.x"))}, []byte(user), []byte{0}, []byte(hostName(r, "socks4.host")), []byte{0})
+		host := hostName(r, "socks4.host")
+		if oneIn(r, 3, "socks4.hostlit") {
+			// clients also put address literals where the name goes
+			host = pick(r, "socks4.hostip", "10.1.2.3", "::1", "2001:db8::1", "192.168.0.7", "[::1]", "0.0.0.0")
+		}
+		out = cat(out, []byte{0, 0, 0, byte(between(r, 1, 255, "socks4.x"))}, []byte(user), []byte{0}, []byte(host), []byte{0})
 	} else {
 		ip := pick(r, "socks4.ip", []byte{93, 184, 216, 34}, []byte{10, 1, 2, 3}, []byte{192, 168, 0, 1}, []byte{127, 0, 0, 1}, []byte{255, 255, 255, 255})
 		if oneIn(r, 3, "socks4.iprand") {
